@@ -325,7 +325,7 @@ def gen_cuts(rng, text, tier):
     elif kind == "one-cut":
         cuts = {rng.randint(1, n - 1)}
     cuts = sorted(c for c in cuts if 0 < c < n)
-    cuts = thin_for_model(rng, text, cuts, 4e6 if tier == "quick" else 1.5e7)
+    cuts = thin_for_model(rng, text, cuts, 3e6 if tier == "quick" else 1.5e7)
     return cuts, kind
 
 
@@ -520,7 +520,7 @@ def correspond(env, searching=False, model=True):
     if searching:
         n_cases = int(n_cases * 1.5)
     t_start = time.time()
-    deadline = t_start + (55 if env.tier == "quick" else 3000)
+    deadline = t_start + (40 if env.tier == "quick" else 3000)
 
     corpus = load_corpus()
     n_corpus = len(corpus)
@@ -550,9 +550,22 @@ def correspond(env, searching=False, model=True):
             batch.append(gen_case(rng, env.tier))
         part = list(enumerate(batch, s0))
         with concurrent.futures.ThreadPoolExecutor(max_workers=workers) as ex:
-            mfut = ex.submit(run_model, env, "m%d" % s0, part) if model else None
+            # the list-based model is the slow side: several nsmodel processes per shard,
+            # cases dealt out by size so the groups cost about the same
+            mfuts = []
+            if model:
+                order = sorted(part, key=lambda ic: -len(ic[1]["text"]) * (1 + len(ic[1]["sched"])))
+                ng = max(1, workers // 2)
+                for g in range(ng):
+                    mfuts.append(ex.submit(run_model, env, "m%d_%d" % (s0, g), order[g::ng]))
             impl = list(ex.map(lambda ic: run_impl(env, ic[0], ic[1]), part))
-            mres, merr = mfut.result() if mfut else ({}, "")
+            mres, merr = {}, ""
+            for fu in mfuts:
+                r_, e_ = fu.result()
+                if r_ is None:
+                    mres, merr = None, e_
+                    break
+                mres.update(r_)
         if model and mres is None:
             disagreements.append({"stream": "readline-model", "error": merr})
             mres = {}
